@@ -52,11 +52,24 @@ func c09Find(d vDoc) (planted []c09Planted, fillerBeforeFirst bool) {
 	return
 }
 
-var c09BadValues = []string{"bar", "1,5", "1.2.3", "5 g", "12abc", "--5", "1e", "e5", "0..5", "½", "１２", "5%", "abc def", "$3", "+", "+.", "-.", ".", "e", "+e1", "0x", "1e+", "+-1", "5;", "1:2", "1e999", "-2e308", "1e309", "0x1p2000"}
+var c09BadValues = []string{"bar", "1,5", "1.2.3", "5 g", "12abc", "--5", "1e", "e5", "0..5", "½", "１２", "5%", "abc def", "$3", "+", "+.", "-.", ".", "e", "+e1", "0x", "1e+", "+-1", "5;", "1:2", "1e999", "-2e308", "1e309", "0x1p2000",
+	// numbers written with signs, digits or separators that only look like the ASCII ones
+	"−5", "−1.5", "−1e3", "＋5", "﹣2", "‐3", "–4", "١٢", "5٫5", "1٬000", "۳", "５", "1e−3", "1·5", "²", "Ⅳ"}
 
 func genC09Malformed(t *rapid.T, names []string, label string) string {
 	indent := vIndents[rapid.IntRange(0, len(vIndents)-1).Draw(t, label+".indent")]
 	nm := c09SafeName(names[rapid.IntRange(0, len(names)-1).Draw(t, label+".name")])
+	if rapid.IntRange(0, 11).Draw(t, label+".longline") == 0 {
+		// a malformed line of 1 .. 60 KiB (a long category path as name): it is quoted as it stands
+		seg := []string{"/very long category name", "/x", " y", "/飯"}[rapid.IntRange(0, 3).Draw(t, label+".longseg")]
+		target := []int{1000, 1024, 1025, 1500, 4096, 5000, 20000, 60000}[rapid.IntRange(0, 7).Draw(t, label+".longn")]
+		var sb strings.Builder
+		sb.WriteString(nm)
+		for sb.Len() < target {
+			sb.WriteString(seg)
+		}
+		nm = sb.String() + "z"
+	}
 	switch rapid.IntRange(0, 11).Draw(t, label+".kind") {
 	case 9: // a quoted name with the value glued to the closing quote and colon
 		return indent + "\"" + nm + "\":" + fmt.Sprint(rapid.IntRange(0, 99).Draw(t, label+".v")) + []string{"", ".5"}[rapid.IntRange(0, 1).Draw(t, label+".frac")]
